@@ -8,10 +8,9 @@ Three parts, all used by vf/props/C12.py:
   so "the same form built in the same way" is true by construction in every process.
 * `build(recipe, conf)` - interpreter of a recipe inside the current process, with the process
   history requested by `conf`: counters pre-set, unrelated objects created in between.
-* `child_main()` - entry point of a *driver* process (one interpreter start = one PYTHONHASHSEED): reads
-  {"recipes": [...], "histories": [{"hi", "confs", "order"}, ...]} from stdin and, for every history,
-  forks a copy of itself (state: ufl imported, nothing built) that builds every recipe under its
-  configuration, observes the signatures through the real UFL functions and reports JSON.
+* `child_main()` - entry point of a child process (one interpreter start = one history): reads
+  {"recipes": [...], "confs": [...], "order": [...]} from stdin, builds every recipe under its
+  configuration, observes the signatures through the real UFL functions and prints one JSON line.
 """
 
 import hashlib
@@ -732,63 +731,15 @@ def observe(recipe, conf, want_canon=True, per_recipe_timeout=20):
     return out
 
 
-def _forked(job, hist):
-    """Observe one history in a forked copy of this (already imported, otherwise untouched) process."""
-    import os
-
-    r, w = os.pipe()
-    pid = os.fork()
-    if pid == 0:
-        rc = 0
-        try:
-            os.close(r)
-            res = {}
-            for k in hist["order"]:
-                res[str(k)] = observe(job["recipes"][k], hist["confs"][k], want_canon=job.get("canon", True))
-            data = json.dumps(res).encode()
-            view = memoryview(data)
-            while view:
-                n = os.write(w, view)
-                view = view[n:]
-        except BaseException:
-            import traceback
-
-            try:
-                os.write(w, ("C12FORKERROR " + traceback.format_exc()).encode())
-            except Exception:
-                pass
-            rc = 1
-        finally:
-            os._exit(rc)
-    os.close(w)
-    chunks = []
-    while True:
-        c = os.read(r, 1 << 16)
-        if not c:
-            break
-        chunks.append(c)
-    os.close(r)
-    os.waitpid(pid, 0)
-    data = b"".join(chunks).decode(errors="replace")
-    if data.startswith("C12FORKERROR"):
-        raise HarnessError(data)
-    if not data:
-        return None
-    return json.loads(data)
-
-
 def child_main():
-    """One driver process = one interpreter start (one PYTHONHASHSEED); one fork per history."""
+    """One child process = one interpreter start = one history."""
     job = json.load(sys.stdin)
     import ufl  # noqa: F401  (through vf bootstrap: VERIF_REPO decides the tree)
 
-    from . import canon, elements  # noqa: F401  (loaded before forking)
-    from ufl.algorithms import compute_form_data  # noqa: F401
-
-    out = {}
-    for hist in job["histories"]:
-        out[str(hist["hi"])] = _forked(job, hist)
-    sys.stdout.write("C12RESULT " + json.dumps({"ufl": ufl.__file__, "hashseed": sys.flags.hash_randomization, "res": out}) + "\n")
+    res = {}
+    for k in job["order"]:
+        res[str(k)] = observe(job["recipes"][k], job["confs"][k], want_canon=job.get("canon", True))
+    sys.stdout.write("C12RESULT " + json.dumps({"ufl": ufl.__file__, "res": res}) + "\n")
     sys.stdout.flush()
 
 
